@@ -35,6 +35,8 @@ inductive Err where
   | errorsNew
   | jsonUnsupportedValue    -- *encoding/json.UnsupportedValueError
   | jsonUnmarshalType       -- *encoding/json.UnmarshalTypeError
+  | ioEOF                   -- io.EOF (fmt layer: what fmt.ScanState.ReadRune reports at the end of the input)
+  | ioErrUnexpectedEOF      -- io.ErrUnexpectedEOF
   deriving Repr, DecidableEq, Inhabited
 
 /-! ## fixed-width integers -/
